@@ -88,6 +88,13 @@ type GIdx struct {
 }
 type GCut struct{ Fn string }
 
+// GAny holds when Body holds for some element of the slice at Over (Elem is the element pattern, as in Rep):
+// the guard form of `for _, e := range xs { if <Body> { return true } }; return false`.
+type GAny struct {
+	Over, Elem string
+	Body       G
+}
+
 func (GConst) isG()   {}
 func (GLeaf) isG()    {}
 func (GNot) isG()     {}
@@ -102,6 +109,7 @@ func (GDyn) isG()     {}
 func (GIf) isG()      {}
 func (GIdx) isG()     {}
 func (GCut) isG()     {}
+func (GAny) isG()     {}
 
 // ---------- symbolic values ----------
 
@@ -205,11 +213,17 @@ func (x *Extractor) joinList(pos token.Pos, l sList, sep T) T {
 			any = orG(any, g)
 			continue
 		}
-		if it.G != nil {
+		if it.G != nil && strings.Contains(GString(it.G), it.Elem) {
+			// the condition is about the element: an earlier element of the same loop may be absent
 			x.fail(pos, "strings.Join: conditionally appended element inside a loop")
 		}
 		body := cat(mkAlt(orG(GIdx{Elem: it.Elem, Op: ">", K: 0}, any), sep, Seq{}), it.T)
-		out = cat(out, Rep{Over: it.Over, Elem: it.Elem, Body: body})
+		var rep T = Rep{Over: it.Over, Elem: it.Elem, Body: body}
+		if it.G != nil {
+			// a loop-invariant condition around the whole loop (`if flag { for … { l = append(l, …) } }`)
+			rep = mkAlt(it.G, rep, Seq{})
+		}
+		out = cat(out, rep)
 		afterRep = true
 	}
 	return out
@@ -388,6 +402,16 @@ func (x *Extractor) execBlockT(pkg *packages.Package, stmts []ast.Stmt, e *env, 
 			if r := x.execBlock(pkg, s.List, inner); r != nil {
 				return r
 			}
+		case *ast.RangeStmt:
+			// `for _, c := range xs { if g(c) { return K } }` with a constant K and no effects is `if ∃c: g(c) { return K }`
+			if g, ret, ok := x.quantifiedReturn(pkg, s, e); ok {
+				rRest := x.execBlockT(pkg, stmts[i+1:], e, tail)
+				if rRest == nil {
+					x.fail(s.Pos(), "a loop returns but the rest of the block does not")
+				}
+				return altSym(g, ret, rRest)
+			}
+			x.execSimple(pkg, st, e)
 		default:
 			x.execSimple(pkg, st, e)
 		}
@@ -807,6 +831,21 @@ func (x *Extractor) execSimple(pkg *packages.Package, st ast.Stmt, e *env) {
 					return
 				}
 			}
+			// v, ok := a.(T) as a statement of its own
+			if len(s.Lhs) == 2 && len(s.Rhs) == 1 && s.Tok == token.DEFINE {
+				if ta, isTA := s.Rhs[0].(*ast.TypeAssertExpr); isTA && ta.Type != nil {
+					if p, isP := x.eval(pkg, ta.X, e).(sPath); isP {
+						tt := info.TypeOf(ta.Type)
+						if id, isID := s.Lhs[0].(*ast.Ident); isID && id.Name != "_" {
+							e.def(info.Defs[id], sPath{P: p.P, T: tt})
+						}
+						if id, isID := s.Lhs[1].(*ast.Ident); isID && id.Name != "_" {
+							e.def(info.Defs[id], sBool{G: GType{Path: p.P, Type: typeName(tt)}})
+						}
+						return
+					}
+				}
+			}
 			x.fail(s.Pos(), "unsupported multi-value assignment")
 		}
 		for i := range s.Lhs {
@@ -1036,6 +1075,51 @@ func (x *Extractor) execRange(pkg *packages.Package, s *ast.RangeStmt, e *env) {
 		}
 		e.set(k, sStr{T: cat(bs.T, Rep{Over: p.P, Elem: elem.P, Body: d})})
 	}
+}
+
+// quantifiedReturn recognises a search loop: a range over an IR slice whose body is one `if` (no else, no initialiser)
+// that does nothing but return a boolean constant. It answers the guard ∃ element: condition, and the constant.
+func (x *Extractor) quantifiedReturn(pkg *packages.Package, s *ast.RangeStmt, e *env) (G, sym, bool) {
+	if len(s.Body.List) != 1 {
+		return nil, nil, false
+	}
+	ifs, ok := s.Body.List[0].(*ast.IfStmt)
+	if !ok || ifs.Else != nil || ifs.Init != nil || len(ifs.Body.List) != 1 {
+		return nil, nil, false
+	}
+	ret, ok := ifs.Body.List[0].(*ast.ReturnStmt)
+	if !ok || len(ret.Results) != 1 {
+		return nil, nil, false
+	}
+	tv, ok := pkg.TypesInfo.Types[ret.Results[0]]
+	if !ok || tv.Value == nil || tv.Value.Kind() != constant.Bool {
+		return nil, nil, false
+	}
+	if s.Key != nil {
+		if id, isID := s.Key.(*ast.Ident); !isID || id.Name != "_" {
+			return nil, nil, false
+		}
+	}
+	over, ok := x.eval(pkg, s.X, e).(sPath)
+	if !ok {
+		return nil, nil, false
+	}
+	sl, ok := over.T.Underlying().(*types.Slice)
+	if !ok {
+		return nil, nil, false
+	}
+	elem := sPath{P: over.P + "[]", T: sl.Elem()}
+	inner := newEnv(e.clone())
+	if s.Value != nil {
+		if id, isID := s.Value.(*ast.Ident); isID && id.Name != "_" {
+			inner.def(pkg.TypesInfo.Defs[id], leaf(elem))
+		}
+	}
+	cb, ok := x.eval(pkg, ifs.Cond, inner).(sBool)
+	if !ok {
+		x.fail(ifs.Cond.Pos(), "condition of a search loop is not a boolean expression over IR fields")
+	}
+	return GAny{Over: over.P, Elem: elem.P, Body: cb.G}, sBool{G: GConst{V: constant.BoolVal(tv.Value)}}, true
 }
 
 // sIndex is the loop index of a range over the slice at Of.
